@@ -6,6 +6,8 @@ import CobaVerif.Lemmas.C05
 import CobaVerif.Lemmas.C05Real
 import CobaVerif.Lemmas.C05Period
 import CobaVerif.Generated.LcgConsts
+import CobaVerif.Lemmas.C05Module
+import CobaVerif.Generated.C05Source
 
 namespace Coba.C05
 
@@ -162,5 +164,133 @@ and the largest uniform `(2^30-1)/2^30` the double result of `min+(max-min)*u` *
 theorem random_float_rounds_to_max :
     ((1048576.0 - 1.0/1048576.0) + (1048576.0 - (1048576.0 - 1.0/1048576.0)) * (1073741823.0 / 1073741824.0) : Float) == 1048576.0 := by
   decide +kernel
+
+/-! ## Phase 4 -/
+
+/-- translator obligation: the seed-normalisation branches of `CobaRandom.__init__` (which types go
+through `int(seed)`, the `float.is_integer` guard, `str`/`utf-8`/`big`/`% 2**20`, the falsy fallback),
+the step/yield of `_next_uniform` (`& (m-1)`, `/ m`), the comparator of the weighted `choice`, what
+`__reduce__` stores, `seed()` replacing the global, the nine delegating module functions, default
+bounds, Box–Muller coefficients and the zero guard — as read off coba/random.py by `ast` on this run —
+are the ones the model is written for -/
+theorem source_facts_match :
+    Coba.Generated.C05.srcFacts = srcFacts ∧ Coba.Generated.C05.srcNums = srcNums := by decide
+
+/-- the model's byte-seed modulus is the extracted `2**20`, and big-endian means base 256 from the left -/
+theorem normBytes_def (bs : List Nat) : normBytes bs = fromBytes bs % strMod ∧
+    fromBytes (bs ++ [0]) = 256 * fromBytes bs := by
+  refine ⟨rfl, ?_⟩
+  simp [fromBytes, List.foldl_append, Nat.mul_comm]
+
+/-- **module functions = methods on the global:** `coba.random.f(args)` returns what
+`_random.f(args)` returns and advances the global exactly as the method does -/
+theorem module_call_eq_method (x : Inst) (o : Op) :
+    cstep x (.op o) = ({ x with g := (step x.g o).1 }, some (step x.g o).2) := module_call_eq_method' x o
+
+/-- **`coba.random.seed(s)` followed by any history of module calls = `CobaRandom(s)` with that
+history** — whatever the global was before (position, buffered gaussian, earlier seeds) -/
+theorem seed_then_history (x : Inst) (s : Nat) (ops : List Op) :
+    crunOne x (.reseed s :: ops.map .op) = runOne { s := s } ops := seed_then_history' x s ops
+
+/-- nothing done before a `seed(s)` call (incl. earlier re-seeds and pickling) is visible after it -/
+theorem seed_forgets_past (x : Inst) (pre : List Call) (s : Nat) (post : List Call) :
+    crunOne x (pre ++ .reseed s :: post) = crunOne x pre ++ crunOne (fresh s) post :=
+  seed_forgets_past' x pre s post
+
+/-- **pickling restores the seed, not the position:** after any history of method calls the unpickled
+object answers like a brand-new `CobaRandom(seed)` -/
+theorem pickle_restores_seed (s : Nat) (ops : List Op) (post : List Call) :
+    crunOne (fresh s) (ops.map .op ++ .repickle :: post)
+      = runOne { s := s } ops ++ crunOne (fresh s) post := pickle_restores_seed' s ops post
+
+/-- pickling an unused generator is the identity (what multiprocessing relies on) -/
+theorem pickle_fresh_noop (s : Nat) (post : List Call) :
+    crunOne (fresh s) (.repickle :: post) = crunOne (fresh s) post := pickle_fresh_noop' s post
+
+/-- the position IS lost: seed 1, one draw, pickle round trip — the copy repeats the first uniform
+(`922/2^30`-style numerators compared), the original would have moved on -/
+theorem pickle_loses_position_counterexample :
+    unum (cafter (fresh 1) [.op (.random 0 1), .repickle]).g.s ≠ unum (cafter (fresh 1) [.op (.random 0 1)]).g.s := by
+  decide
+
+/-- what `__reduce__` stores (`self._seed`) rebuilds the same start state for every kind of seed
+(int, integral float, str/other) — so an unpickled generator IS the generator of the original seed -/
+theorem reduce_seed_roundtrip (sd : SeedObj) : normInt (seedAttr sd) = seedState sd :=
+  reduce_seed_roundtrip' sd
+
+theorem seed_state_lt (sd : SeedObj) : seedState sd < M := seedState_lt sd
+
+/-- int seeds that agree modulo 2^30 are the same generator (huge and negative seeds included) -/
+theorem seed_norm_periodic (z k : Int) : normInt (z + k * (M : Int)) = normInt z := normInt_add_mul z k
+
+/-- frame / purity with re-seeding and pickling in the history: the outputs of object `i` (an instance
+or the module global) under any interleaving equal those of its own calls alone -/
+theorem frame_calls (st : Nat → Inst) (h : List (Nat × Call)) (i : Nat) :
+    ((crun st h).filter (·.1 = i)).map (·.2) = crunOne (st i) ((h.filter (·.1 = i)).map (·.2)) :=
+  frame_calls' st h i
+
+/-- on histories of plain method calls the extended runner (what the driver runs) is `run` -/
+theorem crun_ops_eq_run (st : Nat → Inst) (h : Hist) :
+    crun st (h.map (fun p => (p.1, Call.op p.2))) = run (fun i => (st i).g) h := crun_ops_eq_run' st h
+
+/-- `random(x,x) = x`; `random(min,max)` with `max < min` does not raise and lies in `(max,min]` -/
+theorem random_degenerate (s : Nat) (lo : Rat) : (random s lo lo).2 = lo := random_degenerate' s lo
+
+theorem random_reversed (s : Nat) (lo hi : Rat) (h : hi < lo) :
+    hi < (random s lo hi).2 ∧ (random s lo hi).2 ≤ lo := random_reversed' s lo hi h
+
+example : (3 : Rat) < 5 := by decide
+
+/-- `randint(a,a) = a` -/
+theorem randint_eq (s : Nat) (a : Int) : (randint s a a).2 = a := randint_eq' s a
+
+/-- `randint(a,b)` with `a > b` does not raise; the value lies in `[b+1,a]` -/
+theorem randint_reversed (s : Nat) (a b : Int) (h : b < a) :
+    b + 1 ≤ (randint s a b).2 ∧ (randint s a b).2 ≤ a := randint_reversed' s a b h
+
+example : (2 : Int) < 7 := by decide
+
+/-- `n = 0`: no value, no uniform consumed; in general exactly `n` uniforms are consumed -/
+theorem randoms_zero (s : Nat) (lo hi : Rat) : randoms s 0 lo hi = (s, []) := randoms_zero' s lo hi
+theorem randints_zero (s : Nat) (a b : Int) : randints s 0 a b = (s, []) := randints_zero' s a b
+theorem randoms_draws (s n : Nat) (lo hi : Rat) : (randoms s n lo hi).1 = next^[n] s := randoms_draws' s n lo hi
+theorem randints_draws (s n : Nat) (a b : Int) : (randints s n a b).1 = next^[n] s := randints_draws' s n a b
+
+/-- **`gausses(n)` = n × `gauss()`**: same values and same generator afterwards (state and buffered
+second Box–Muller value), for every generator incl. one with a buffered value -/
+theorem gausses_eq_iterated_gauss (g : Gen) (n : Nat) : gaussIter g n = gausses g n :=
+  gausses_eq_iterated_gauss' g n
+
+theorem gausses_zero (g : Gen) : gausses g 0 = (g, []) := gausses_zero' g
+theorem gausses_length (g : Gen) (n : Nat) : (gausses g n).2.length = n := gausses_length' g n
+
+/-- one element: it is returned whatever its positive weight, and `choicew` reports that weight -/
+theorem choice_single (s : Nat) (w : Rat) (hw : 0 < w) :
+    choice s 1 (some [w]) = .ok (next s, 0) ∧ choicew s 1 (some [w]) = .ok (next s, 0, w) :=
+  choice_single' s w hw
+
+example : (0 : Rat) < 1 / 2 := by decide +kernel
+
+theorem choice_single_unweighted (s : Nat) : choice s 1 none = .ok (next s, 0) := choice_single_unweighted' s
+
+/-- zero total weight is rejected before a uniform is drawn: the stream is where it was -/
+theorem choice_zero_total_keeps_state (g : Gen) (n : Nat) (ws : List Rat) (h : sum ws = 0) :
+    step g (.choice n (some ws)) = (g, .err .valueError) := choice_zero_total_keeps_state' g n ws h
+
+example : sum [0, 0] = 0 := by decide +kernel
+
+/-- weights of ANY sign: as long as the lengths match and the total is positive the call succeeds
+and the chosen member's weight is strictly positive — non-negativity of the individual weights
+(`hnn` of `choice_pos_weight`) is not needed for this clause -/
+theorem choice_pos_weight_any_sign (s n : Nat) (ws : List Rat) (hlen : ws.length = n) (hpos : 0 < sum ws) :
+    ∃ i, choice s n (some ws) = .ok (next s, i) ∧ i < n ∧ ∃ w, ws[i]? = some w ∧ 0 < w :=
+  choice_pos_weight_any_sign' s n ws hlen hpos
+
+example : ([3, -1, 2] : List Rat).length = 3 ∧ 0 < sum [3, -1, 2] := by decide +kernel
+
+/-- …but the total must be positive: with a negative total nothing is found and the bare
+`StopIteration` of `next(compress(…))` escapes (outside the contract; replayed by the corpus) -/
+theorem choice_negative_total_counterexample :
+    choice (normInt 1) 1 (some [-1]) = .error .stopIteration := by decide +kernel
 
 end Coba.C05
